@@ -485,6 +485,9 @@ class Func:
             for i, e in enumerate(b.events):
                 e['_b'] = b.id
                 e['_i'] = i
+        self.flags = []
+        if self.blocks and getattr(self, '_copyprop', True) and os.environ.get('IVY_NO_FLAGS') != '1':
+            self.flags = partition_flags(self)
         if self.blocks and getattr(self, '_copyprop', True) and os.environ.get('IVY_NO_COPYPROP') != '1':
             try:
                 self.copyprop = copy_propagate(self)
@@ -857,6 +860,215 @@ PURE_CALLS = {'iv_list_empty', 'iv_get_state', 'pthr_self', 'pthreads_available'
               'iv_tls_user_ptr', '__iv_tls_user_ptr', 'iv_get_thread_id', 'timespec_gt', 'timer_ptr_gt', 'strcmp', 'strerror',
               'iv_avl_tree_empty', 'iv_avl_tree_min', 'iv_avl_tree_max', 'iv_avl_tree_next', 'iv_avl_tree_prev', 'height', 'balance',
               '___mutex_lock', '___mutex_unlock', 'spin_lock', 'spin_unlock', 'iv_fatal', 'abs', 'fprintf', 'perror', 'snprintf'}
+
+
+
+# --------------------------------------------------------------------------
+# flag partitioning (jump threading over boolean/constant locals)
+# --------------------------------------------------------------------------
+
+_BOOL_OPS = ('==', '!=', '<', '>', '<=', '>=', '&&', '||')
+
+
+def _is_boolean_expr(e):
+    e = strip(e)
+    return isinstance(e, dict) and ((e.get('k') == 'bin' and e.get('op') in _BOOL_OPS) or (e.get('k') == 'un' and e.get('op') == '!'))
+
+
+def fold(e):
+    """Constant folding of an expression tree in which some reads were replaced by constants."""
+    if isinstance(e, list):
+        return [fold(x) for x in e]
+    if not isinstance(e, dict):
+        return e
+    out = {k: (fold(v) if isinstance(v, (dict, list)) else v) for k, v in e.items()}
+    k = out.get('k')
+
+    def ival(x):
+        x = strip(x)
+        if isinstance(x, dict) and x.get('k') == 'int':
+            return x['v']
+        if isinstance(x, dict) and x.get('k') == 'null':
+            return 0
+        return None
+    if k in ('load', 'paren') and isinstance(out.get('e'), dict) and out['e'].get('k') == 'int':
+        return out['e']
+    if k == 'cast' and isinstance(out.get('e'), dict) and out['e'].get('k') == 'int' and '*' not in str(out.get('to', '')):
+        return out['e']
+    if k == 'un' and out.get('op') in ('!', '-', '~'):
+        v = ival(out['e'])
+        if v is not None and strip(out['e']).get('k') == 'int':
+            return {'k': 'int', 'v': int(not v) if out['op'] == '!' else (-v if out['op'] == '-' else ~v)}
+    if k == 'bin':
+        a, b = ival(out['l']), ival(out['r'])
+        op = out['op']
+        la = a is not None and strip(out['l']).get('k') == 'int'
+        lb = b is not None and strip(out['r']).get('k') == 'int'
+        if la and lb and op in ('+', '-', '*', '&', '|', '^', '<<', '>>', '==', '!=', '<', '>', '<=', '>=', '&&', '||'):
+            if op == '&&':
+                return {'k': 'int', 'v': int(bool(a) and bool(b))}
+            if op == '||':
+                return {'k': 'int', 'v': int(bool(a) or bool(b))}
+            return {'k': 'int', 'v': int(eval('%d %s %d' % (a, op, b)))}
+        if op == '&&':
+            if la:
+                return {'k': 'int', 'v': 0} if not a else _truth(out['r'])
+            if lb and b:
+                return _truth(out['l'])
+        if op == '||':
+            if la:
+                return {'k': 'int', 'v': 1} if a else _truth(out['r'])
+            if lb and not b:
+                return _truth(out['l'])
+    if k == 'cond':
+        c = ival(out['c'])
+        if c is not None and strip(out['c']).get('k') == 'int':
+            return out['a'] if c else out['b']
+    return out
+
+
+def _truth(e):
+    return e if _is_boolean_expr(e) else {'k': 'bin', 'op': '!=', 'l': e, 'r': {'k': 'int', 'v': 0}, 'type': 'int'}
+
+
+def _flag_vars(fn):
+    addr_taken, stores, bad = set(), {}, set()
+    for e in fn.events():
+        for x in walk(e):
+            if x.get('k') == 'addr':
+                v = strip(x['e'])
+                if isinstance(v, dict) and v.get('k') == 'var':
+                    addr_taken.add(v['name'])
+        if e['ev'] == 'store':
+            l = strip(e['lhs'])
+            if l.get('k') == 'var' and l.get('vk') == 'local':
+                r = strip(e.get('rhs')) if 'rhs' in e else None
+                if e.get('op') == '=' and isinstance(r, dict) and (r.get('k') == 'int' or _is_boolean_expr(r)):
+                    stores.setdefault(l['name'], []).append(e)
+                else:
+                    bad.add(l['name'])
+    tested = set()
+    for b in fn.blocks.values():
+        c = b.term.get('cond') if b.term else None
+        if c is not None and len(b.succ) >= 2:
+            for x in walk(c):
+                if x.get('k') == 'var':
+                    tested.add(x['name'])
+    for e in fn.events():
+        for x in walk(e):
+            if x.get('k') == 'cond':
+                for y in walk(x['c']):
+                    if y.get('k') == 'var':
+                        tested.add(y['name'])
+    return sorted(n for n in stores if n not in bad and n not in addr_taken and n in tested)
+
+
+def partition_flags(fn, max_flags=4, max_blocks=900):
+    """Trace partitioning on flag locals: a local that is only ever assigned
+    integer constants or boolean expressions and is tested in a branch is
+    eliminated from the control flow by splitting every block per known value of
+    the flag (jump threading).  `armed = 0; if (c) armed = 1; ...; if (armed) f();`
+    thereby becomes the nested form `if (c) { ...; f(); } else { ... }`, which is
+    what the path rules reason about.  Purely a CFG refinement: every path of
+    the result is a path of the source with the same events."""
+    done = []
+    for name in _flag_vars(fn)[:max_flags]:
+        if _partition_one(fn, name, max_blocks):
+            done.append(name)
+    return done
+
+
+def _partition_one(fn, name, max_blocks):
+    def is_flag_read(x):
+        return isinstance(x, dict) and x.get('k') == 'load' and isinstance(x.get('e'), dict) \
+            and x['e'].get('k') == 'var' and x['e']['name'] == name
+
+    def sub(x, v):
+        if v is None:
+            return x
+        return fold(subst(x, lambda nd: {'k': 'int', 'v': v} if is_flag_read(nd) else None))
+
+    newblocks = {}
+    ids = {}
+    work = []
+
+    def node(b, i, v, pre=None):
+        key = (b, i, v) if pre is None else (b, i, v, id(pre))
+        if b == fn.exit:
+            key = (b, 0, None)
+        if key not in ids:
+            ids[key] = len(ids)
+            work.append((key, b, i, v, pre))
+        return ids[key]
+
+    entry = node(fn.entry, 0, None)
+    while work:
+        key, b, i0, v, pre = work.pop()
+        if len(ids) > max_blocks:
+            return False
+        blk = fn.blocks[b]
+        nb = Block(ids[key], [], [], None, blk.noreturn)
+        newblocks[nb.id] = nb
+        if pre is not None:
+            nb.events.append(pre)
+        split = False
+        for i in range(i0, len(blk.events)):
+            e = blk.events[i]
+            if e['ev'] == 'load' and v is not None and is_flag_read({'k': 'load', 'e': strip_load(e['e'])}):
+                continue
+            if e['ev'] == 'store' and strip(e['lhs']).get('k') == 'var' and strip(e['lhs'])['name'] == name:
+                r = strip(sub(e['rhs'], v))
+                if isinstance(r, dict) and r.get('k') == 'int':
+                    v = r['v']
+                    nb.events.append(dict(e, rhs={'k': 'int', 'v': v}))
+                    continue
+                # boolean expression: branch on it, continue with the flag known
+                cond = sub(e['rhs'], v)
+                nb.term = {'cls': 'FlagSplit', 'cond': cond, 'loc': e.get('loc', '')}
+                nb.succ = [node(b, i + 1, 1, dict(e, rhs={'k': 'int', 'v': 1})),
+                           node(b, i + 1, 0, dict(e, rhs={'k': 'int', 'v': 0}))]
+                split = True
+                break
+            e2 = {}
+            for k_, x in e.items():
+                e2[k_] = sub(x, v) if (isinstance(x, (dict, list)) and k_ not in ('lhs',)) else x
+            if e['ev'] == 'store' and v is not None:
+                e2['lhs'] = sub(e['lhs'], v) if strip(e['lhs']).get('k') != 'var' else e['lhs']
+            nb.events.append(e2)
+        if split:
+            continue
+        term = dict(blk.term) if blk.term else None
+        succ = list(blk.succ)
+        if term and term.get('cond') is not None:
+            term['cond'] = sub(term['cond'], v)
+            c = strip(term['cond'])
+            if isinstance(c, dict) and c.get('k') == 'int' and len(succ) >= 2:
+                if term.get('cls') == 'SwitchStmt':
+                    cases = term.get('cases', [])
+                    pick = [s for s, cv in zip(succ, cases) if cv == c['v']] or [s for s, cv in zip(succ, cases) if cv == 'default']
+                    if pick:
+                        succ = [pick[0]]
+                        term = dict(term, cls='Pruned')
+                        term.pop('cond', None)
+                elif len(succ) == 2:
+                    succ = [succ[0] if c['v'] else succ[1]]
+                    term = dict(term, cls='Pruned', pruned=('false' if c['v'] else 'true'))
+                    term.pop('cond', None)
+        nb.term = term
+        nb.succ = [None if s is None else node(s, 0, v) for s in succ]
+    fn.blocks = newblocks
+    fn.entry = entry
+    fn.exit = ids[(fn.exit, 0, None)] if (fn.exit, 0, None) in ids else fn.exit
+    if fn.exit not in fn.blocks:
+        nid = max(fn.blocks) + 1
+        fn.blocks[nid] = Block(nid, [], [], None)
+        fn.exit = nid
+    fn._preds = None
+    for b in fn.blocks.values():
+        for i, e in enumerate(b.events):
+            e['_b'] = b.id
+            e['_i'] = i
+    return True
 
 
 def relpath(loc):
